@@ -34,6 +34,10 @@ def piece_bytes(x, rng):
         return cb.frame("List"), False
     if x == "get":
         return cb.frame({"Get": {"path": "f"}}), False
+    if x in ("get_padded", "get_smuggle"):
+        item = cb.frame({"Get": {"path": "f"}})[4:]
+        filler = bytes(40) if x == "get_padded" else cb.frame({"Delete": {"path": "f", "expected": H("c1")}})
+        return struct.pack(">I", len(item) + len(filler)) + item + filler, False
     if x == "get_badpath":
         return cb.frame({"Get": {"path": "../x"}}), False
     if x == "put_new":
